@@ -25,7 +25,7 @@ LEVEL = "fault_enumeration"
 MODULE = "Totality"
 TRACE = "TotalityTrace"
 
-FRAC = ["absent", "empty", "dec", "dec3", "subcenti", "one", "gt1", "zero", "neg", "exp", "hex", "plus", "ws", "nan", "inf", "ovf", "u64", "nonnum"]
+FRAC = ["absent", "empty", "dec", "dec3", "subcenti", "one", "gt1", "zero", "neg", "exp", "hex", "plus", "ws", "nan", "inf", "ovf", "udf", "u64", "nonnum"]
 MEM = ["absent", "empty", "pos", "lead0", "zero", "neg", "exp", "hex", "plus", "ws", "nan", "ovf", "u64", "max64", "nonnum", "dec"]
 DEV = ["absent", "empty", "one", "two", "zero", "neg", "exp", "hex", "plus", "ws", "nan", "ovf", "u64", "max64", "huge", "nonnum", "dec"]
 NODE = ["healthy", "nolabels", "zeroalloc", "emptyalloc", "nopods", "gpumem-garbage", "gpumem-bytes", "gpumem-zero", "gpumem-neg",
